@@ -650,7 +650,9 @@ class Polygon(Shape2D):
         # the phase of the polygon's position, which is first order in q.
         centroid = self.centroid
         extent_sq = np.max(np.sum((self._vertices - centroid) ** 2, axis=-1))
-        zero_q = np.isclose(q_sqs * extent_sq, 0)
+        # (The cutoff balances the truncation error of this branch against the rounding
+        # error of the boundary integral, both of which polyhedra amplify by 1/|q|.)
+        zero_q = np.isclose(q_sqs * extent_sq, 0, atol=1e-12)
         form_factor[zero_q] = self.area * np.exp(-1j * np.dot(q[zero_q], centroid))
 
         # Add the contribution over all edges of the face.
